@@ -18,7 +18,7 @@ def _mf_system(alpha=0.0, beta=1.0):
 def field_linear_time(inp):
     import oqupy
     bad = []
-    for t0, dt, N in ((1.0, 0.1, 4), (0.0, 0.25, 3), (-0.5, 0.2, 5)):
+    for t0, dt, N in ((1.0, 0.1, 4), (0.0, 0.25, 3), (-0.5, 0.2, 5), (0.3, 0.1, 0), (0.0, 0.1, 1)):
         for ra in (True, False):
             mfs = _mf_system(0.0, 1.0)
             d = oqupy.compute_dynamics_with_field(
